@@ -130,6 +130,17 @@ PROPS["C20"] = dict(
                "themselves are C07's / C08's.",
     explanation=MIX)
 
+PROPS["C09"] = dict(
+    level="other", claimed=True,
+    level_text="Bounded stand-in only (native execution of the real transforms against direct evaluation written in the check): "
+               "FFT evaluation / interpolation with offsets and blowups, degree inference, and the column-batched and segmented "
+               "low-degree extension of matrices agree with direct polynomial evaluation on the enumerated space. No deductive "
+               "contract: algebraic identities over symbolic field values are beyond CBMC, and the bodies are generic over field "
+               "and batch size with iterator adapters the installed Verus rejects.",
+    level_note="Bounded as stated in coverage.native_bounded_standins; nothing is proved for all sizes. The multi-threaded "
+               "variants (`concurrent` feature) are not built.",
+    explanation=MIX)
+
 NOT_APPLICABLE.update({
     "C01": "whole-protocol completeness over all AIR programs: no per-function contract carries it (DESIGN.md 4.C01)",
     "C02": "cryptographic soundness is probabilistic and adversarial, not a safety property of any function (DESIGN.md 4.C02)",
